@@ -1803,7 +1803,17 @@ def _lincomb_impl(a, x1, b, x2, out):
         if a == 0 and b == 0:
             out.data[:] = 0
         else:
-            out.data[:] = a * x1.data + b * x2.data
+            # An operand with zero coefficient must not contribute its
+            # non-finite entries (``0 * inf`` is ``nan``, so ``x * 2``,
+            # computed as ``2 * x + 0 * x``, would turn ``inf`` into
+            # ``nan``). Its finite entries still enter, which keeps the
+            # signs of zeros in the result.
+            x1_arr, x2_arr = x1.data, x2.data
+            if a == 0:
+                x1_arr = np.where(np.isfinite(x1_arr), x1_arr, 0)
+            if b == 0:
+                x2_arr = np.where(np.isfinite(x2_arr), x2_arr, 0)
+            out.data[:] = a * x1_arr + b * x2_arr
         return
 
     elif (size < THRESHOLD_MEDIUM or
